@@ -1,5 +1,6 @@
 import EG.Step
 import EG.Build
+import EG.Render
 import EG.Trav
 import EG.Single
 /-
@@ -17,6 +18,31 @@ open EG
 def filterTable (k : Nat) (l : LId) (x : Option VId) : Bool :=
   let c := match x with | none => 0 | some v => v + 1
   k.testBit ((7 * l + c) % 64)
+
+/-! ### renderer argument families (the adapter builds the same Python callables) -/
+
+def codeOf : Option VId → Nat
+  | none => 0
+  | some v => v + 1
+
+def rfTok : R.RFun := fun x => match x with | none => "none" | some v => s!"v{v}"
+def rfRepr : R.RFun := fun x => match x with | none => "None" | some v => s!"r{v}"
+def sortKey (k : Nat) : Option VId → Nat := fun x => (codeOf x * (k + 1)) % 7
+
+def pumlOpts : Nat → R.POpts
+  | 1 => { vopt := fun c => match c with
+             | .V => some ⟨"object", false⟩ | .SV => some ⟨"class", false⟩ | _ => none
+           lopt := fun c => match c with
+             | .D => some ⟨"", ">"⟩ | .U => some ⟨"", ""⟩ | .DD => some ⟨"<", ">"⟩ | _ => none }
+  | 2 => { vopt := fun c => match c with | .V => some ⟨"object", true⟩ | _ => none
+           lopt := fun c => match c with
+             | .D => some ⟨"", ">"⟩ | .U => some ⟨"", ""⟩ | _ => none }
+  | 3 => { vopt := fun c => match c with | .V => some ⟨"object", false⟩ | _ => none
+           lopt := fun c => match c with
+             | .D => some ⟨"", ">"⟩ | .U => some ⟨"", ""⟩ | .X => some ⟨"o", "o"⟩ | _ => none }
+  | _ => { vopt := fun c => match c with | .V => some ⟨"object", false⟩ | _ => none
+           lopt := fun c => match c with
+             | .D => some ⟨"", ">"⟩ | .U => some ⟨"", ""⟩ | _ => none }
 
 structure DState where
   w : World := World.init
@@ -314,6 +340,35 @@ def step (st : DState) (line : String) : DState × String :=
         | .ok (w', u) => ({ st with w := w' }, s!"ok V{u}")
       | _, _ => bad
     | _, _ => bad
+  | ["plain", u, rf, sort] =>
+    match parseId 'V' u, parseOptNat sort with
+    | some u, some sort =>
+      if !(w.isUni u) then bad else
+      match R.basicRender w filterTable u (if rf == "repr" then rfRepr else rfTok) (sort.map sortKey) with
+      | .error e => (st, errLine e)
+      | .ok none => (st, "ok none")
+      | .ok (some str) => (st, "ok " ++ str.replace "\n" "|")
+    | _, _ => bad
+  | ["puml", u, o] =>
+    match parseId 'V' u, o.toNat? with
+    | some u, some o =>
+      if !(w.isUni u) then bad else
+      match R.pumlDoc w (pumlOpts o) u with
+      | .error _ => (st, "err Error")
+      | .ok none => (st, "ok none")
+      | .ok (some (decls, rels)) =>
+        (st, "ok decls=" ++ showList id decls ++ " rels=" ++ showList id (rels.mergeSort (· ≤ ·)))
+    | _, _ => bad
+  | ["pyvis", u, re] =>
+    match parseId 'V' u with
+    | some u =>
+      if !(w.isUni u) then bad else
+      match R.pyvisNet w u (fun v => s!"v{v}") (if re == "-" then none else some fun l => s!"e{l}") with
+      | .error e => (st, errLine e)
+      | .ok (nodes, edges) =>
+        (st, "ok nodes=" ++ showList (fun (p : Nat × String) => s!"{p.1}:{p.2}") nodes ++ " edges=" ++
+          showList (fun (e : R.PEdge) => s!"{e.src}{if e.arrows then ">" else "-"}{e.dst}:{e.title.getD "-"}") edges)
+    | none => bad
   | ["tsnew", c, a] =>
     match parseId 'C' c, parseId 'A' a with
     | some c, some a =>
